@@ -28,6 +28,14 @@ def matrix(ctx):
         dict(label="tee/terminals-pinned-at-1/smoothed/adaptive", dev="tee", smooth=5, mel=0.6, terminal_psi=1.0, adaptive=True, dt_max=0.125),
         dict(label="barhole/terminals-pinned-at-1/screening/adaptive/gamma=1", dev="barhole", smooth=0, gamma=1.0, terminal_psi=1.0, adaptive=True,
              screening=True, dt=2.0 ** -10, dt_max=2.0 ** -8, solve_time=0.05),
+        # default-like step control (dt_init = 1e-6, dt_max = 0.1) on devices with terminals, pinned at the uniform value and unpinned: after the
+        # warm-up window the step must jump to dt_max and STAY there (a controller fed a phantom change of |psi|^2 settles near sqrt(dt_init/rate))
+        dict(label="bar/terminals-pinned-at-1/adaptive/dt_init=1e-6/dt_max=0.1", dev="bar", smooth=0, terminal_psi=1.0, adaptive=True, dt=1e-6, dt_max=0.1,
+             solve_time=2.0),
+        dict(label="tee/terminals-pinned-at-1/smoothed/adaptive/window=10/dt_init=1e-6/dt_max=0.1", dev="tee", smooth=5, mel=0.6, terminal_psi=1.0,
+             adaptive=True, dt=1e-6, dt_max=0.1, window=10, solve_time=1.5),
+        dict(label="cross/terminals-unpinned/adaptive/dt_init=1e-6/dt_max=0.1", dev="cross", smooth=0, terminal_psi=None, adaptive=True, dt=1e-6, dt_max=0.1,
+             solve_time=1.5),
         # histories in one process: a solver was built for a TWIN mesh (same triangulation, other geometry) before the observed run
         dict(label="history/film/raw-mesh-then-smoothed-twin/screening", func="stationary_history", dev="film", twin="smooth", order="AB", screening=True,
              adaptive=True, dt_max=0.125, solve_time=1.0),
@@ -65,6 +73,13 @@ def matrix(ctx):
              dt=2.0 ** -11, solve_time=0.012),
     ]
     if not ctx.quick:
+        for dev in ("bar", "barhole", "tee", "cross"):
+            for tpsi in (1.0, None):
+                for dt0, dtm in ((1e-6, 0.1), (1e-4, 0.05), (1e-3, 0.1)):
+                    for screening in ((False, True) if dt0 == 1e-4 else (False,)):
+                        runs.append(dict(label=f"{dev}/terminal_psi={tpsi}/adaptive/dt_init={dt0:g}/dt_max={dtm:g}/screening={screening}", dev=dev, smooth=0,
+                                         terminal_psi=tpsi, adaptive=True, dt=dt0, dt_max=dtm, window=(10 if dt0 == 1e-3 else 3), screening=screening,
+                                         solve_time=(0.6 if screening else 1.5)))
         for form in ro.EPS_FORMS:
             for xi in (0.5, 1.0, 2.0):
                 for mel in (0.8, 0.5):
@@ -108,6 +123,12 @@ def run(ctx):
     ctx.cov["twin_mesh_histories"] = {"planned": sum(1 for a in runs if a.get("func") == "stationary_history"), "skipped_not_twins": skipped}
     if ctx.cov["twin_mesh_histories"]["planned"] - len(skipped) < 2:
         raise core.MachineryFailure(f"C17: fewer than 2 twin-mesh histories could be built (skipped: {skipped})")
+    # vacuity guard of the step-control clause on pinned-at-1 devices: enough adaptive steps after the warm-up window, with dt_max >> dt_init
+    after = [sum(e["dts"].count("max") + e["dts"].count("other") for e in t["ev"] if e.get("kind") == "stat") - 0
+             for a, t in zip(runs, traces) if a.get("terminal_psi") == 1.0 and a.get("adaptive") and a.get("dt_max", 0) >= 1e3 * a.get("dt", 1) and not t.get("skipped")]
+    ctx.cov["pinned_at_1_default_step_control"] = {"runs": len(after), "steps_after_warm_up": after}
+    if not after or max(after) < 10 or sum(1 for n in after if n >= 5) < 2:
+        raise core.MachineryFailure(f"C17: step-control clause on terminal_psi = 1 devices not exercised after the window: {after}")
     # vacuity guard of the epsilon-form dimension
     ef = [t for t in traces if t.get("eps_form")]
     forms = sorted({t["eps_form"] for t in ef})
